@@ -4,6 +4,7 @@ package main
 
 import (
 	"fmt"
+	"os"
 	"go/ast"
 	"go/constant"
 	"go/token"
@@ -98,6 +99,8 @@ type Ctx struct {
 	Fam       *FamilySpec
 	ReplVal   *Term
 	FamVars   map[string]SV
+	ForceInline map[string]bool
+	nalloc    int
 	MaxPaths  int
 	Labels    map[string]bool // selected ensures labels (nil = all)
 	NoSafety  bool
@@ -232,6 +235,13 @@ func (c *Path) learn(t Term) {
 		if len(parts) == 2 {
 			if k, ok := literalTerm(parts[1]); ok {
 				c.Facts[parts[0]] = k
+			} else if strings.HasPrefix(parts[0], "(") && !strings.HasPrefix(parts[1], "(") && !strings.HasPrefix(parts[1], "\"") && !strings.HasPrefix(parts[1], "#") {
+				// application == symbol: rewrite the application to the symbol from now on
+				srt := SInt
+				if k, ok := c.C.Decls[parts[1]]; ok {
+					srt = k
+				}
+				c.Facts[parts[0]] = Term{S: parts[1], Sort: srt}
 			}
 		}
 	}
@@ -1249,12 +1259,14 @@ func (fr *frame) evalCompositeLit(p *Path, e *ast.CompositeLit, addr bool) []PV 
 	return one(p, OpaqueVal{"complit"})
 }
 
-// alloc returns a fresh non-nil reference that was not allocated before.
+// alloc returns a fresh non-nil reference that was not allocated before. Fresh references are distinct negative
+// literals (program behaviour cannot depend on the address chosen by the allocator; literals let reads over writes
+// fold syntactically); the pre-state is assumed not to have allocated them.
 func (p *Path) alloc(hint string) Term {
-	r := p.C.fresh("new_"+hint, SInt)
+	p.C.nalloc++
+	r := mkInt(-int64(p.C.nalloc))
 	a := p.heapGet(allocKey, "")
-	p.assume(tNot(tEq(r, mkInt(0))))
-	p.assume(tNot(tSelect(a, r, SBool)))
+	p.assume(tNot(p.norm(tSelect(a, r, SBool))))
 	p.Heap[allocKey] = tStore(a, r, tTrue)
 	return r
 }
@@ -1278,6 +1290,8 @@ func (fr *frame) execBlock(ps []*Path, stmts []ast.Stmt) []*Path {
 	}
 	return ps
 }
+
+var traceForks = os.Getenv("GOVC_TRACE") != ""
 
 type maxPather interface{ MaxPaths() int }
 
@@ -1313,6 +1327,9 @@ func (fr *frame) execStmt(p *Path, s ast.Stmt) []*Path {
 		}
 		return out
 	case *ast.ReturnStmt:
+		if traceForks {
+			p.Trace = append(p.Trace, fmt.Sprintf("ret@%d/d%d", c.U.Fset.Position(s.Pos()).Line, fr.depth))
+		}
 		if len(s.Results) == 1 && fr.fi != nil {
 			// possibly a tuple-returning call
 			for _, pv := range fr.eval(p, s.Results[0]) {
@@ -1392,6 +1409,11 @@ func (fr *frame) execStmt(p *Path, s ast.Stmt) []*Path {
 				tp.assume(ct)
 				ep := cv.P
 				ep.assume(tNot(ct))
+				if traceForks {
+					pos := c.U.Fset.Position(s.Pos())
+					tp.Trace = append(tp.Trace, fmt.Sprintf("%d:T", pos.Line))
+					ep.Trace = append(ep.Trace, fmt.Sprintf("%d:F", pos.Line))
+				}
 				if !tp.Dead {
 					out = append(out, fr.execStmt(tp, s.Body)...)
 				}
